@@ -28,7 +28,17 @@ def synthesise(model):
                 break
     out = {}
     for name, a in recs.items():
+        if name.endswith("_dec"):
+            continue
         out[name] = synth_one(a)
+    # decoder views: bytes whose FIRST JSON value parses although the whole does not (json.Decoder semantics)
+    for name, a in recs.items():
+        if not name.endswith("_dec"):
+            continue
+        base = name[:-4]
+        ba = recs.get(base, {})
+        if (b(ba, "mErr") or b(ba, "sErr")) and not b(a, "mErr") and not b(ba, "empty"):
+            out[base] = synth_one(a) + "] trailing-garbage"
     return out
 
 
